@@ -196,6 +196,14 @@ pub fn c09_worker(args: &Args, w: &Worker) -> i32 {
             }
         }
     }
+    // lost positions (every root move collapses at some depth) and searches on a cache that
+    // already holds tens of thousands of entries of OTHER positions
+    crowded_and_losing(w, thorough, &mut idx, &|w, c, p, pos, out, tag| {
+        w.count("searches", 1);
+        if let Some(why) = judge_go(out, &searchrun::legal_uci(pos)) {
+            w.violation(&format!("{}|{tag}", c.sig()), &format!("'{}' on {} ({}) [{tag}]: {why}", c.limits.go_line(), p.fen, p.name), &with_scenario(c, tag));
+        }
+    });
     // a shallower search of a NEARBY position on the cache left by a deeper search: the second
     // root was an interior node of the first search (possibly a fail-low node whose cached move
     // is only a placeholder); every position two plies away, depths 1..3, cache restored each time
@@ -424,6 +432,96 @@ pub fn selfplay(w: &Worker, tier: &str, idx: &mut usize, judge: &dyn Fn(&Worker,
     }
 }
 
+/// Two families shared by C09 and C14. (1) `LOSING`: 'go depth N', N = 1..6, fresh and kept cache.
+/// (2) crowded cache: a filler search leaves far more than 32k entries of an unrelated position in
+/// the process-wide table (the table never evicts by itself), then every position of `P9` (quick:
+/// the first twelve) and of `LOSING` is searched to depths 1..4 on top of it without clearing.
+/// The replay record carries `scenario`, so a replay prepares the cache the same way.
+pub fn crowded_and_losing(w: &Worker, thorough: bool, idx: &mut usize, judge: &dyn Fn(&Worker, &Case, &SPos, &Pos, &Out, &str)) {
+    let fresh = Opts { clear_cache: true, observe: false, neutral: false };
+    let keep = Opts { clear_cache: false, observe: false, neutral: false };
+    for p in spos::LOSING.iter() {
+        *idx += 1;
+        if !w.mine(*idx) {
+            continue;
+        }
+        let Ok((board, pos, _)) = searchrun::open(p.fen, &spos::hist(p)) else { continue };
+        for n in 1..=6u128 {
+            let c = case_for(p, &Limits { depth: Some(n), ..Default::default() }, Cut::ClockNever);
+            for (opts, tag) in [(&fresh, "losing-fresh"), (&keep, "losing-kept")] {
+                let out = searchrun::run_within(&board, &c, opts, ALLOW);
+                w.count("searches_of_lost_positions", 1);
+                judge(w, &c, p, &pos, &out, tag);
+            }
+        }
+    }
+    let list: Vec<&SPos> = P9.iter().take(if thorough { P9.len() } else { 12 }).chain(spos::LOSING.iter()).collect();
+    for chunk in list.chunks(4) {
+        *idx += 1;
+        if !w.mine(*idx) {
+            continue;
+        }
+        let entries = fill_cache();
+        w.max("crowded_cache_entries_before_search", entries as u64);
+        for p in chunk {
+            let Ok((board, pos, _)) = searchrun::open(p.fen, &spos::hist(p)) else { continue };
+            for n in 1..=4u128 {
+                let c = case_for(p, &Limits { depth: Some(n), ..Default::default() }, Cut::ClockNever);
+                let out = searchrun::run_within(&board, &c, &keep, ALLOW);
+                w.count("searches_on_crowded_cache", 1);
+                judge(w, &c, p, &pos, &out, "crowded");
+                if out.nodes > 300_000 {
+                    break;
+                }
+            }
+        }
+    }
+}
+
+/// `scenario` key of a replay record for the tag of a search
+pub fn scenario_of(tag: &str) -> Option<&'static str> {
+    match tag {
+        "crowded" => Some("crowded"),
+        "kept-cache" | "losing-kept" => Some("kept"),
+        _ => None,
+    }
+}
+
+pub fn with_scenario(c: &Case, tag: &str) -> J {
+    let mut r = c.json();
+    if let (J::Obj(v), Some(sc)) = (&mut r, scenario_of(tag)) {
+        v.push(("scenario".into(), s(sc)));
+    }
+    r
+}
+
+/// Runs `case` with the cache prepared as the scenario of the record says.
+pub fn run_scenario(board: &crate::board::Board, case: &Case, r: &J) -> Out {
+    let fresh = Opts { clear_cache: true, observe: false, neutral: false };
+    let keep = Opts { clear_cache: false, observe: false, neutral: false };
+    match r.get("scenario").and_then(|x| x.str()) {
+        Some("crowded") => {
+            fill_cache();
+            searchrun::run(board, case, &keep)
+        }
+        Some("kept") => {
+            let _ = searchrun::run(board, case, &fresh);
+            searchrun::run(board, case, &keep)
+        }
+        _ => searchrun::run(board, case, &fresh),
+    }
+}
+
+/// Clears the cache and runs the filler search (perft position 3 to depth 9, about 80k entries).
+pub fn fill_cache() -> usize {
+    let filler = SPos { name: "filler", fen: "8/2p5/3p4/KP5r/1R3p1k/8/4P1P1/8 w - - 0 1", history: "" };
+    if let Ok((board, _, _)) = searchrun::open(filler.fen, &[]) {
+        let c = case_for(&filler, &Limits { depth: Some(9), ..Default::default() }, Cut::ClockNever);
+        let _ = searchrun::run(&board, &c, &Opts { clear_cache: true, observe: false, neutral: false });
+    }
+    crate::board::transposition_table::TRANSPOSITION_TABLE.read().unwrap_or_else(|e| e.into_inner()).len()
+}
+
 pub fn c14_worker(args: &Args, w: &Worker) -> i32 {
     searchrun::quiet_panics();
     let thorough = args.tier == "thorough";
@@ -438,16 +536,16 @@ pub fn c14_worker(args: &Args, w: &Worker) -> i32 {
         if out.panicked.is_some() {
             // a panic before the bestmove is C09's finding; for C14 it means depth N is never reported
             if let Some(n) = full {
-                w.violation(&format!("{}|{tag}|panic", c.sig()), &format!("'go depth {n}' on {} ({}): the search panicked before reporting all depths: {:?}", p.fen, p.name, out.panicked), &c.json());
+                w.violation(&format!("{}|{tag}|panic", c.sig()), &format!("'go depth {n}' on {} ({}): the search panicked before reporting all depths: {:?}", p.fen, p.name, out.panicked), &with_scenario(c, tag));
             }
             return;
         }
         let bad = infogrammar::check_log(&out.log, pos, full);
         if let Some(first) = bad.first() {
-            w.violation(&format!("{}|{tag}", c.sig()), &format!("'{}' [{}] on {} ({}): {first}", c.limits.go_line(), c.cut.text(), p.fen, p.name), &c.json());
+            w.violation(&format!("{}|{tag}", c.sig()), &format!("'{}' [{}] on {} ({}) [{tag}]: {first}", c.limits.go_line(), c.cut.text(), p.fen, p.name), &with_scenario(c, tag));
         }
     };
-    for p in P9.iter().take(npos) {
+    for p in P9.iter().take(npos).chain(spos::LOSING.iter()) {
         let Ok((board, pos, _)) = searchrun::open(p.fen, &spos::hist(p)) else { continue };
         if pos.legal_moves().is_empty() {
             continue;
@@ -512,6 +610,10 @@ pub fn c14_worker(args: &Args, w: &Worker) -> i32 {
             }
         }
     }
+    crowded_and_losing(w, thorough, &mut idx, &|w, c, p, pos, out, tag| {
+        w.count("depth_limited_searches", 1);
+        report(w, c, p, pos, out, Some(c.limits.depth.unwrap_or(0) as i64), tag);
+    });
     // whole games with the cache kept across positions: stale entries of earlier searches
     selfplay(w, &args.tier, &mut idx, &|w, c, pos, out, ply| {
         w.count("logs_checked", 1);
@@ -602,9 +704,13 @@ pub fn replay_c09(doc: &J) -> i32 {
     let mut verdicts = vec![];
     for _ in 0..2 {
         let mut v = None;
-        for round in 0..rounds {
-            let out = searchrun::run(&board, &case, &Opts { clear_cache: round == 0, observe: false, neutral: false });
-            v = judge_go(&out, &legal);
+        if r.get("scenario").is_some() {
+            v = judge_go(&run_scenario(&board, &case, r), &legal);
+        } else {
+            for round in 0..rounds {
+                let out = searchrun::run(&board, &case, &Opts { clear_cache: round == 0, observe: false, neutral: false });
+                v = judge_go(&out, &legal);
+            }
         }
         verdicts.push(v);
     }
@@ -654,7 +760,7 @@ pub fn replay_c14(doc: &J) -> i32 {
     let full = if case.limits.nodes.is_none() && !case.limits.has_time() { case.limits.depth.map(|d| d as i64) } else { None };
     let mut verdicts = vec![];
     for _ in 0..2 {
-        let out = searchrun::run(&board, &case, &Opts { clear_cache: true, observe: false, neutral: false });
+        let out = run_scenario(&board, &case, r);
         let v = if out.panicked.is_some() { vec![format!("panicked: {:?}", out.panicked)] } else { infogrammar::check_log(&out.log, &pos, full) };
         for l in &out.log {
             println!("  {l}");
